@@ -141,8 +141,7 @@ Fixpoint floyd_walk (fuel : nat) (pred : tab) (src cur : Z) (acc : list (Z * Z))
            else floyd_walk f pred src p ((p, cur) :: acc)
   end.
 
-Definition floyd_route_len (g : list redge) (n : nat) (s t : Z) : Z :=
-  let '(cost, pred) := floyd_tables g n in
+Definition floyd_len_from (pred : tab) (g : list redge) (n : nat) (s t : Z) : Z :=
   match floyd_walk (S n) pred s t [] with
   | None => -1
   | Some hops => fold_right (fun h a =>
@@ -151,6 +150,8 @@ Definition floyd_route_len (g : list redge) (n : nat) (s t : Z) : Z :=
                    | None => a
                    end) 0 hops
   end.
+Definition floyd_route_len (g : list redge) (n : nat) (s t : Z) : Z :=
+  floyd_len_from (snd (floyd_tables g n)) g n s t.
 
 (* ------------------------------------------------------------------------------------------ Dijkstra model *)
 
@@ -205,7 +206,7 @@ Fixpoint dij_loop (fuel : nat) (guard : bool) (g : list redge) (st : list Z * li
 Definition dijkstra (guard : bool) (g : list redge) (n : nat) (s : Z) : list Z * list Z :=
   let ids := range n in
   let cost0 := map (fun i => if i =? s then 0 else ULMAX) ids in
-  let pred0 := map (fun _ => 0) ids in
+  let pred0 := map (fun _ => if guard then ULMAX else 0) ids in   (* repaired code: ULONG_MAX = no predecessor *)
   let pq0 := rev (map (fun i => (if i =? s then 0 else ULMAX, i)) ids) in
   let '(cost, pred, _) := dij_loop (n + n * n * (length g + 1)) guard g (cost0, pred0, pq0) in
   (cost, pred).
@@ -215,6 +216,7 @@ Fixpoint dij_walk (fuel : nat) (g : list redge) (pred : list Z) (s v : Z) (acc :
   match fuel with
   | O => -1
   | S f => if v =? s then acc
+           else if vget pred v =? ULMAX then -1            (* repaired code: "No route" *)
            else match find (fun e => (eu e =? vget pred v) && (ev e =? v)) g with
                 | None => -1
                 | Some e => dij_walk f g pred s (vget pred v) (acc + elen e)
@@ -260,12 +262,23 @@ Definition run_chain (inp : list Z) : list Z :=
                       end
   | _ => []
   end.
+(** input: n m edges.. s t ; output: [1; links..] / [0] *)
+Definition run_full (inp : list Z) : list Z :=
+  match inp with
+  | n :: m :: rest => let '(g, r) := take_edges (Z.to_nat m) rest in
+                      match r with
+                      | s :: t :: _ => match full_route g s t with Some L => 1 :: L | None => [0] end
+                      | _ => []
+                      end
+  | _ => []
+  end.
 (** input: n m edges.. ; output: the n*n table of Floyd route lengths (row-major; diagonal included) *)
 Definition run_floyd (inp : list Z) : list Z :=
   match inp with
   | n :: m :: rest => let '(g, _) := take_edges (Z.to_nat m) rest in
                       let ids := range (Z.to_nat n) in
-                      flat_map (fun s => map (fun t => floyd_route_len g (Z.to_nat n) s t) ids) ids
+                      let pred := snd (floyd_tables g (Z.to_nat n)) in
+                      flat_map (fun s => map (fun t => floyd_len_from pred g (Z.to_nat n) s t) ids) ids
   | _ => []
   end.
 (** input: guard n m edges.. ; output: n*n table of Dijkstra route lengths *)
@@ -273,6 +286,7 @@ Definition run_dijkstra (inp : list Z) : list Z :=
   match inp with
   | gd :: n :: m :: rest => let '(g, _) := take_edges (Z.to_nat m) rest in
                             let ids := range (Z.to_nat n) in
-                            flat_map (fun s => map (fun t => dijkstra_route_len (negb (gd =? 0)) g (Z.to_nat n) s t) ids) ids
+                            flat_map (fun s => let pred := snd (dijkstra (negb (gd =? 0)) g (Z.to_nat n) s) in
+                                               map (fun t => dij_walk (S (Z.to_nat n)) g pred s t 0) ids) ids
   | _ => []
   end.
